@@ -1663,18 +1663,8 @@ def run_dfi(case):
 
 
 
-def _load_factor():
-  """>= 1: how oversubscribed the machine is (other checks run at the same time on the shared 16-core box)."""
-  import os
-  try:
-    return float(min(12.0, max(1.0, os.getloadavg()[0] / (os.cpu_count() or 1))))
-  except OSError:
-    return 1.0
-
-
-# wall budgets are a safety net only (they truncate the number of cases, never decide pass/fail); the work is
-# compile-bound, so the net is widened in proportion to the machine load at start-up
-_WALL = {'quick': 240.0 * _load_factor(), 'thorough': 1500.0 * _load_factor()}
+# wall budgets are a safety net only (they truncate the number of cases, never decide pass/fail)
+_WALL = {'quick': 300.0, 'thorough': 1800.0}
 _NT = 'non-trivial = some triple has tangent and cotangent non-zero in >= 2 fields (all, if fewer) and <Jv,w> != 0'
 
 
